@@ -513,8 +513,9 @@ def replay_from_obs(p):
     rng = np.random.default_rng(0)
     msgs = []
     # two regimes of tables: means well above the deviations, and rows whose deviation exceeds the mean
-    for n, (mlo, mhi, slo, shi) in [(n_, r_) for n_ in sorted({p['nlen'], 1, 2, 3}) for r_ in ((5, 9, 0.5, 1.5), (0.2, 2.0, 0.5, 3.0))]:
-        means, stds, mins = rng.uniform(mlo, mhi, n), rng.uniform(slo, shi, n), rng.uniform(-3, 0.1, n) if mhi < 5 else rng.uniform(1, 4, n)
+    for n, (mlo, mhi, slo, shi) in [(n_, r_) for n_ in sorted({p['nlen'], 1, 2, 3}) for r_ in ((5, 9, 0.5, 1.5), (0.2, 2.0, 0.5, 3.0), (1.0, 2.0, 0.5, 1.0))]:
+        # (third regime: floors from brighter observations than the means -- every floor entry above every mean)
+        means, stds, mins = rng.uniform(mlo, mhi, n), rng.uniform(slo, shi, n), (rng.uniform(3, 5, n) if shi == 1.0 else (rng.uniform(-3, 0.1, n) if mhi < 5 else rng.uniform(1, 4, n)))
         seen = {'mean': set(), 'std': set()}
         for seed in range(60 * n):
             fr = stg.Frame(fchans=64, tchans=4, df=2.0, dt=4.0, fch1=4096.0, seed=seed)
